@@ -26,6 +26,9 @@ STRENGTHENED = {
     "C16-m3": "caught after the is_*_node helper-agreement obligation was added",
     "C16-m4": "caught after the unequal-children obligation for encode_branch_node was added",
     "C18-m4": "caught after Nibbles concatenation entry points were added",
+    "C07-m4": "missed while the harness only retried the failed call; caught after a different write on the same object follows the first failure",
+    "C12-m6": "first inconclusive (interpreter gave up on None == bytes); now modelled, and reported by the adjacent-key native boundary run",
+    "C14-m4": "needs set;set;set with equal values; second targeted 3-operation obligation added to the quick tier",
 }
 for d in sorted(os.listdir(os.path.join(HERE, "seeded"))):
     mp = os.path.join(HERE, "seeded", d, "meta.json")
